@@ -220,6 +220,7 @@ func cmdC01(args []string) {
 		scaled++
 	}
 	res.SetExtra("behaviours_at_large_payload_sizes", scaled)
+	c01WriteLadder(res, base)
 	c01SizeBoundary(res, base)
 	res.Distinct = len(distinct)
 	res.SetExtra("layout_vectors", len(layouts))
@@ -400,6 +401,7 @@ func c01DoTest(res *hlib.Result, t c01Test, base []byte, bad map[string][]byte, 
 			cse := map[string]interface{}{"ps": t.Ps, "bad": kind, "cut": t.Cut, "chunks": t.Chunks, "exp": t.Exp, "reused_message": reuse, "from_bytes_buffer": fromBuffer}
 			decoded := 0
 			final := ""
+			var held [][]byte // what earlier reads returned: a later read must not change it
 			var shared net.Message
 			if reuse {
 				// the recycled value starts with a payload longer than anything in the stream
@@ -423,6 +425,7 @@ func c01DoTest(res *hlib.Result, t c01Test, base []byte, bad map[string][]byte, 
 					if m.Header != w.Header || !bytes.Equal(m.Payload, w.Payload) {
 						res.Fail("framing/lossy", fmt.Sprintf("message %d read back different: %+v", decoded, m.Header), cse)
 					}
+					held = append(held, m.Payload)
 					decoded++
 					if decoded <= len(t.Exp.Ends) && pos() != t.Exp.Ends[decoded-1] {
 						res.Fail("framing/consumed", fmt.Sprintf("after message %d the reader consumed %d bytes, expected %d", decoded, pos(), t.Exp.Ends[decoded-1]), cse)
@@ -435,6 +438,12 @@ func c01DoTest(res *hlib.Result, t c01Test, base []byte, bad map[string][]byte, 
 					final = "error"
 				}
 				break
+			}
+			for i, h := range held {
+				if i < len(msgs) && !bytes.Equal(h, msgs[i].Payload) {
+					res.Fail("framing/earlier-payload-changed", fmt.Sprintf("the payload returned for message %d (%d bytes) was changed by a later read into the same Message", i, len(h)), cse)
+					break
+				}
 			}
 			if final == "extra" {
 				continue
@@ -465,6 +474,64 @@ func c01DoTest(res *hlib.Result, t c01Test, base []byte, bad map[string][]byte, 
 			}
 		}
 	}
+}
+
+// c01WriteLadder: Message.Write at the large payload sizes into writers that take only part of what they are offered
+// (a short count with a nil error: every byte must still arrive, in order, exactly once) and into one that fails
+// half way (the failure must be reported).  The documented bytes are header ++ payload whatever the size.
+func c01WriteLadder(res *hlib.Result, base []byte) {
+	sizes := append([]int{65535, 65536, 1 << 20}, c01Ladder...)
+	for i, size := range sizes {
+		payload := c01Payload(i, size)
+		h := net.NewHeader(net.Reply, 7, 9, 11, uint32(1000+i))
+		msg := net.NewMessage(h, payload)
+		var ref bytes.Buffer
+		if err := msg.Write(&ref); err != nil {
+			res.Fail("framing/write-error", err.Error(), size)
+			continue
+		}
+		want := ref.Bytes()
+		if len(want) != 28+size || !bytes.Equal(want[28:], payload) || !bytes.Equal(want[:4], base[:4]) {
+			res.Fail("framing/layout-bytes", fmt.Sprintf("a message with a payload of %d bytes is written as %d bytes / another payload", size, len(want)), size)
+			continue
+		}
+		for _, max := range []int{4096, 65536, size/2 + 1, 1 << 30} {
+			res.Evaluations++
+			sw := &shortWriter{max: max}
+			if err := msg.Write(sw); err != nil {
+				res.Fail("framing/short-write-error", fmt.Sprintf("payload %d, a writer that accepts %d bytes per call: %v", size, max, err), size)
+				break
+			}
+			if !bytes.Equal(sw.got, want) {
+				res.Fail("framing/short-write-bytes", fmt.Sprintf("payload %d: a writer that accepts %d bytes per call received %d bytes, the message has %d (first difference at %d)",
+					size, max, len(sw.got), len(want), firstDiffBytes(sw.got, want)), size)
+				break
+			}
+		}
+		res.Evaluations++
+		fw := &shortWriter{max: 1 << 30, failAt: 28 + size/2}
+		if err := msg.Write(fw); err == nil {
+			res.Fail("framing/write-fault-swallowed", fmt.Sprintf("payload %d: the writer failed half way and Message.Write reported success", size), size)
+		}
+		// and read back what was written, then once more into the same Message after a smaller one
+		var m1 net.Message
+		if err := m1.Read(bytes.NewReader(want)); err != nil || m1.Header != msg.Header || !bytes.Equal(m1.Payload, payload) {
+			res.Fail("framing/lossy", fmt.Sprintf("payload %d: written message does not read back (%v)", size, err), size)
+		}
+	}
+}
+
+func firstDiffBytes(a, b []byte) int {
+	n := len(a)
+	if len(b) < n {
+		n = len(b)
+	}
+	for i := 0; i < n; i++ {
+		if a[i] != b[i] {
+			return i
+		}
+	}
+	return n
 }
 
 // c01SizeBoundary: payload sizes limit-1, limit (accepted) and limit+1
